@@ -175,8 +175,19 @@ static inline void harness_point(void) {   // between harness ops
 	}
 }
 
+// a fatal signal prints a symbolic backtrace first (library crash messages are otherwise silent), then dies by the same signal
+#include <execinfo.h>
+static void dvm_crash_bt(int sig) {
+	void *bt[40]; int n = backtrace(bt, 40);
+	static const char msg[] = "dvm: fatal signal, backtrace:\n";
+	if (write(2, msg, sizeof msg - 1)) {}
+	backtrace_symbols_fd(bt, n, 2);
+	signal(sig, SIG_DFL); raise(sig);
+}
 // called at the start of main(), after the library constructor has already sized its pools from the inherited mask
 static void mode_setup(void) {
+	{ struct sigaction sa; memset(&sa, 0, sizeof sa); sa.sa_handler = dvm_crash_bt; sa.sa_flags = SA_NODEFER | SA_RESETHAND;
+	  sigaction(SIGILL, &sa, 0); sigaction(SIGSEGV, &sa, 0); sigaction(SIGBUS, &sa, 0); }
 	if (P.mode == MODE_F1 || P.mode == MODE_P1) {
 		cpu_set_t cs; CPU_ZERO(&cs); CPU_SET(P.cpu, &cs);
 		sched_setaffinity(0, sizeof cs, &cs);
